@@ -28,7 +28,7 @@ ASSUMPTIONS = [
 ]
 
 CODES = ['modify0', 'modify1', 'add', 'add_explicit', 'detach0', 'commit', 'abort',
-         'fail_begin<', 'fail_commit<', 'fail_vote<', 'fail_commit>', 'fail_vote>', 'reopen']
+         'fail_begin<', 'fail_commit<', 'fail_vote<', 'fail_commit>', 'fail_vote>', 'reopen', 'other0']
 
 
 def _records_of(s, tid):
@@ -76,7 +76,9 @@ def _run(codes, storage):
             t = w.commit()
             expect = w.last_stored
             tid = w.s.lastTransaction()
-            if expect or root_changed:
+            if t == 'C!conflict':
+                check(tid == before_last, 'commit refused with a conflict stored a transaction')
+            elif expect or root_changed:
                 check(tid != before_last, 'commit with changes wrote no transaction')
                 recs = _records_of(w.s, tid)
                 oids = [o for o, _ in recs]
@@ -94,6 +96,8 @@ def _run(codes, storage):
                 check(tid == before_last, 'commit without changes wrote a transaction')
         elif code == 'abort':
             t = w.abort()
+        elif code == 'other0':
+            t = w.other_commit(0)
         elif code.startswith('fail_'):
             phase = code[5:-1]
             t = w.failing_commit(phase, first=code.endswith('<'))
@@ -110,6 +114,9 @@ def _run(codes, storage):
                     check(isinstance(ex, ConnectionStateError), 'wrong error closing a connection inside a transaction', type(ex).__name__)
                 w.abort()
             w.c.close()
+            # opening is a transaction boundary: the connection catches up with what others committed
+            w.work = dict(w.committed)
+            w.other_changed = set()
             w.c = w.db.open(w.tm)          # any pooled Connection object may come back
             w.root = w.c.root()
             for name in list(w.obj):        # objects are per connection: re-fetch the ones that are stored
@@ -157,19 +164,19 @@ def h_program(c0: int, c1: int, c2: int, c3: int, c4: int, n: int, storage: str,
     reached()
 
 
-_FIRST = ['modify0', 'add', 'add_explicit', 'detach0', 'fail_vote<', 'fail_commit>', 'reopen']
+_FIRST = ['modify0', 'add', 'add_explicit', 'detach0', 'fail_vote<', 'fail_commit>', 'reopen', 'other0']
 HARNESSES = [
     Harness('program', h_program,
             decides='after every step of any program: committed changes and newly reachable objects are stored together under one '
                     'id and are clean; after abort / failed commit (any phase) modified objects show their committed state and new '
                     'objects belong to no database and can be added again; close only outside a transaction; a reused connection '
                     'keeps no uncommitted state; other connections see only committed data',
-            symbolic='n step codes over 13 operations (incl. 5 failing-commit variants and close/reopen)',
+            symbolic='n step codes over 14 operations (incl. 5 failing-commit variants, close/reopen, and another connection committing a change so that our commit conflicts)',
             bounds='program length n per shard (quick 3 exhaustively + length 4 split by first step; thorough up to 5), 2 committed objects at start',
             oracle='ownership/state model (zverif/progs.py) + records of each commit from storage iteration',
             code=['Connection.add/_register/commit/_commit/_store_objects/tpc_begin/tpc_vote/tpc_finish/tpc_abort/abort/_abort/'
                   '_invalidate_creating/_tpc_cleanup/close/open', 'ObjectWriter.serialize', 'DB.open/_returnToPool'],
-            quick=dict(timeout=200, shards=shards(n=[3], storage=['file'], first=['any']) + shards(n=[4], storage=['file'], first=_FIRST)),
+            quick=dict(timeout=320, shards=shards(n=[3], storage=['file'], first=['any']) + shards(n=[4], storage=['file'], first=_FIRST)),
             thorough=dict(timeout=3000, shards=shards(n=[3], storage=['file', 'mapping', 'demo'], first=['any'])
                           + shards(n=[4], storage=['file', 'mapping'], first=CODES) + shards(n=[5], storage=['file'], first=CODES))),
 ]
